@@ -18,7 +18,12 @@ Atoms == {Str, Num, Boo, Kw("object"), Kw("bigint"), Kw("symbol"), Kw("any"), Kw
           Ref("WeakMap", <<Obj, Str>>), Ref("WeakSet", <<Obj>>), Ref("Array", <<Str>>), Ref("Function", <<>>), Ref("Object", <<>>)}
 
 (* <<type, declarations>> *)
-Base == {<<a, <<>>>> : a \in Atoms}
+MethodIdx == {<<IdxT(TypeLit(<<Method("mm", FALSE), Prop("j", "ident", FALSE, Num)>>), LitT("str", "mm")), <<>>>>,
+              <<IdxT(Ref("IM", <<>>), LitT("str", "mm")), <<Interface("IM", <<>>, <<Method("mm", FALSE), Prop("j", "ident", FALSE, Num)>>)>>>>,
+              <<IdxT(Ref("IM", <<>>), UnionT(<<LitT("str", "mm"), LitT("str", "j")>>)), <<Interface("IM", <<>>, <<Method("mm", FALSE), Prop("j", "ident", FALSE, Num)>>)>>>>,
+              <<IdxT(TypeLit(<<Method("mm", TRUE)>>), Kw("string")), <<>>>>,
+              <<IdxT(Ref("AM", <<>>), LitT("str", "g")), <<Alias("AM", TypeLit(<<Getter("g", Str), Method("mm", FALSE)>>))>>>>}
+Base == {<<a, <<>>>> : a \in Atoms} \cup MethodIdx
         \cup {<<Ref("IObj", <<>>), <<Interface("IObj", <<>>, <<Prop("foo", "ident", FALSE, Str)>>)>>>>,
               <<Ref("IFn", <<>>), <<Interface("IFn", <<>>, <<CallSig(Str)>>)>>>>,
               <<Ref("IEmpty", <<>>), <<Interface("IEmpty", <<>>, <<>>)>>>>}
